@@ -4,6 +4,7 @@ import CanvasProofs.Lemmas.C13Close
 import CanvasProofs.Lemmas.C13Num
 import CanvasProofs.Lemmas.C13Pages
 import CanvasProofs.Lemmas.C13ParseE
+import CanvasProofs.Lemmas.C13Res
 
 /-! # C13 — every PDF produced is structurally valid: theorems about the writer model
 `Canvas.C13` (hand-written model of /repo/renderers/pdf/writer.go, tied by correspondence).
@@ -116,6 +117,30 @@ theorem page_count (env : Env) (ops : List Op) (s : St) (h : run env {} ops = so
   have hl : (close env s).st.pages.length = ops.countP isNewPage := by rw [e, hf.1, hp, e0]; simp
   exact ⟨hl, by simp [pagesDict, hl]⟩
 
+/-! ### page-local resource names -/
+
+/-- For any history over any number of pages: every resource name that `SetFont`, `SetAlpha`,
+`DrawImage` or `SetFill`/`SetStroke` with a gradient emitted into the content stream of a page
+(`/F0 … Tf`, `/A0 gs`, `/Im0 Do`, `/P0 scn`) is defined in the Font / ExtGState / XObject / Pattern
+dictionary of THAT page's /Resources — names are allocated per page, also for fonts, images and
+gradients that were already used on an earlier page. `done` lists the pages as they were when
+`writePage` serialised them, one per page object. -/
+theorem resources_page_local (env : Env) (ops : List Op) (s : St) (h : run env {} ops = some s) :
+    (∀ p ∈ (close env s).st.done, ∀ u ∈ p.uses, u.2 ∈ p.names u.1)
+    ∧ (close env s).st.done.length = (close env s).st.pages.length := by
+  have hi := resinv_run env ops resinv_init h
+  have hl := donelen_run env ops (s := {}) rfl h
+  have e : (close env s).st.pages = (flushPage env s).pages := by simp [close, closeBody]
+  rw [close_done, e]
+  exact ⟨(resinv_flush env hi).2, flush_done_length env s hl⟩
+
+/-- non-vacuity: one gradient value painted on two pages gets a name in each page's own map -/
+example : ∃ s, run ⟨id, fun _ => ([], .bool true), fun _ => [], fun _ => .bool true, [], [1]⟩ {}
+      [.newPage [] [] [], .setGradient false [7] [], .newPage [] [] [],
+       .setGradient true [9] [], .setGradient false [7] []] = some s
+    ∧ (s.done.map (fun p => p.patterns.map (·.1))) = [[[7]]]
+    ∧ (s.page.map (fun p => p.patterns.map (·.1))) = some [[9], [7]] := ⟨_, rfl, by decide, by decide⟩
+
 /-! ### text objects -/
 
 /-- Every history the writer accepts without panicking obeys the text-object discipline: `BT` and
@@ -167,7 +192,7 @@ theorem canonical_order_ok (tE sE : Option Entry) (rest : List Entry)
 /-- The number hypothesis inside `wf` holds for everything a decimal printer emits for a finite
 number: optional minus sign, integer digits, optional point and fraction digits, at least one digit.
 (That the real `dec` prints exactly such texts for finite floats is checked on the real code by the
-NUM correspondence lines; NaN/Inf — the repaired defects 7e81ff7, 088add3 — are not of this shape.) -/
+NUM correspondence lines; NaN/Inf — the repaired defects 22480c8, 276f7ec — are not of this shape.) -/
 theorem printed_number_wf (neg : Bool) (ip fr : Bytes) (hip : ip.all Canvas.C13.Rd.isDigit = true)
     (hfr : fr.all Canvas.C13.Rd.isDigit = true) (hne : ip ≠ [] ∨ fr ≠ []) :
     wf (.num (decShape neg ip fr)) = true := by
